@@ -35,6 +35,17 @@ type recObj struct {
 	Ver    int // content version, bumped by every user write
 	Other  int // a field owned by "another reconciler": changes without a new pending id
 	Status reconciler.Status
+	// Set is used instead of Status when the script asks for reconciler.StatusSet objects
+	// (several reconcilers per object; ours is named "verif")
+	Set    reconciler.StatusSet
+	UseSet bool
+}
+
+func (o *recObj) status() reconciler.Status {
+	if o.UseSet {
+		return o.Set.Get("verif")
+	}
+	return o.Status
 }
 
 func (o *recObj) TableHeader() []string { return []string{"ID", "Ver", "Status"} }
@@ -68,6 +79,7 @@ type recOp struct {
 	Back    int    `json:"back"` // wait: revision = current table revision - back
 	Q       bool   `json:"q"`
 	Idle    bool   `json:"idle"`
+	UseSet  bool   `json:"statusset"`
 }
 
 type recInject struct {
@@ -92,6 +104,7 @@ type recState struct {
 	known   map[uint64]*recObj
 	initFn  func(statedb.WriteTxn)
 	waits   sync.WaitGroup
+	useSet  bool
 }
 
 func (st *recState) now() int { return int(time.Since(st.start) / time.Millisecond) }
@@ -103,6 +116,18 @@ func (st *recState) emit(ev Ev) {
 }
 
 func kindOf(s reconciler.Status) string { return s.Kind.String() }
+
+// pendingObj builds the object a user writes: a new content version, marked pending
+func (st *recState) pendingObj(id uint64, ver int, old *recObj) *recObj {
+	if !st.useSet {
+		return &recObj{ID: id, Ver: ver, Status: reconciler.StatusPending()}
+	}
+	set := reconciler.NewStatusSet()
+	if old != nil {
+		set = old.Set.Pending()
+	}
+	return &recObj{ID: id, Ver: ver, Set: set, UseSet: true}
+}
 
 // onCommit runs at the linearization point of every commit (hook commit.stored, root mutex held).
 func (st *recState) onCommit(point string) {
@@ -122,8 +147,8 @@ func (st *recState) onCommit(point string) {
 	}
 	for o, orev := range st.table.LowerBound(rt, statedb.ByRevision[*recObj](st.lastRev+1)) {
 		seen[o.ID] = true
-		changes = append(changes, map[string]any{"k": int(o.ID), "ver": o.Ver, "other": o.Other, "kind": kindOf(o.Status),
-			"sid": int(o.Status.ID), "rev": int(orev), "del": false})
+		changes = append(changes, map[string]any{"k": int(o.ID), "ver": o.Ver, "other": o.Other, "kind": kindOf(o.status()),
+			"sid": int(o.status().ID), "rev": int(orev), "del": false})
 	}
 	ids := []int{}
 	for id := range st.known {
@@ -134,8 +159,8 @@ func (st *recState) onCommit(point string) {
 	sort.Ints(ids)
 	for _, id := range ids {
 		o := st.known[uint64(id)]
-		changes = append(changes, map[string]any{"k": id, "ver": o.Ver, "other": o.Other, "kind": kindOf(o.Status),
-			"sid": int(o.Status.ID), "rev": 0, "del": true})
+		changes = append(changes, map[string]any{"k": id, "ver": o.Ver, "other": o.Other, "kind": kindOf(o.status()),
+			"sid": int(o.status().ID), "rev": 0, "del": true})
 	}
 	st.known = cur
 	st.lastRev = rev
@@ -157,7 +182,11 @@ func (st *recState) userWrite(kind string, k int) {
 	case "upsert":
 		st.verCtr++
 		ver = st.verCtr
-		st.table.Insert(wtxn, &recObj{ID: id, Ver: ver, Status: reconciler.StatusPending()})
+		if found {
+			st.table.Insert(wtxn, st.pendingObj(id, ver, old))
+		} else {
+			st.table.Insert(wtxn, st.pendingObj(id, ver, nil))
+		}
 	case "delete":
 		if found {
 			ver = old.Ver
@@ -169,7 +198,7 @@ func (st *recState) userWrite(kind string, k int) {
 		}
 		st.verCtr++
 		ver = st.verCtr
-		st.table.Insert(wtxn, &recObj{ID: id, Ver: ver, Status: reconciler.StatusPending()})
+		st.table.Insert(wtxn, st.pendingObj(id, ver, nil))
 	case "status2":
 		// another reconciler writes its own status: the object changes, the pending id does not
 		if found {
@@ -207,7 +236,7 @@ func (o *recOps) doUpdate(txn statedb.ReadTxn, rev statedb.Revision, obj *recObj
 	st := o.st
 	fail, inj := st.outcome("update", obj.ID)
 	st.emit(Ev{"op": "call", "kind": "update", "k": int(obj.ID), "ver": obj.Ver, "rev": int(rev), "fail": fail,
-		"t": st.now(), "batch": batch, "trev": int(st.table.Revision(txn)), "skind": kindOf(obj.Status), "arg": [][]int{}})
+		"t": st.now(), "batch": batch, "trev": int(st.table.Revision(txn)), "skind": kindOf(obj.status()), "arg": [][]int{}})
 	if !fail {
 		st.target[obj.ID] = obj.Ver
 	}
@@ -224,7 +253,7 @@ func (o *recOps) doDelete(txn statedb.ReadTxn, rev statedb.Revision, obj *recObj
 	st := o.st
 	fail, inj := st.outcome("delete", obj.ID)
 	st.emit(Ev{"op": "call", "kind": "delete", "k": int(obj.ID), "ver": obj.Ver, "rev": int(rev), "fail": fail,
-		"t": st.now(), "batch": batch, "trev": int(st.table.Revision(txn)), "skind": kindOf(obj.Status), "arg": [][]int{}})
+		"t": st.now(), "batch": batch, "trev": int(st.table.Revision(txn)), "skind": kindOf(obj.status()), "arg": [][]int{}})
 	if !fail {
 		delete(st.target, obj.ID)
 	}
@@ -282,7 +311,7 @@ func runRecScript(t *testing.T, sc Script, log *Log) {
 			panic(err)
 		}
 		st := &recState{log: log, start: time.Now(), target: map[uint64]int{}, failQ: map[string]int{},
-			inject: map[string][]recInject{}, ncalls: map[string]int{}, known: map[uint64]*recObj{}}
+			inject: map[string][]recInject{}, ncalls: map[string]int{}, known: map[uint64]*recObj{}, useSet: cfg.UseSet}
 		ops := &recOps{st}
 		var batchOps reconciler.BatchOperations[*recObj]
 		if cfg.Batch {
@@ -321,8 +350,15 @@ func runRecScript(t *testing.T, sc Script, log *Log) {
 				cell.Invoke(func(params reconciler.Params) error {
 					var err error
 					st.r, err = reconciler.Register(params, st.table, (*recObj).Clone,
-						func(o *recObj, s reconciler.Status) *recObj { o.Status = s; return o },
-						func(o *recObj) reconciler.Status { return o.Status },
+						func(o *recObj, s reconciler.Status) *recObj {
+							if o.UseSet {
+								o.Set = o.Set.Set("verif", s)
+							} else {
+								o.Status = s
+							}
+							return o
+						},
+						func(o *recObj) reconciler.Status { return o.status() },
 						ops, batchOps, opts...)
 					return err
 				}),
@@ -398,7 +434,7 @@ func runRecScript(t *testing.T, sc Script, log *Log) {
 				rt := st.db.ReadTxn()
 				rows := [][]any{}
 				for o, rev := range st.table.All(rt) {
-					rows = append(rows, []any{int(o.ID), o.Ver, kindOf(o.Status), int(rev)})
+					rows = append(rows, []any{int(o.ID), o.Ver, kindOf(o.status()), int(rev)})
 				}
 				tg := [][]int{}
 				keys := []int{}
